@@ -146,7 +146,7 @@ def bfs_multi(space_mod: str, parts: list[dict], procs: int = 16,
         # short by the time cap has covered a spread of the frontier
         frontier.sort(key=lambda x: hashlib.sha1(
             json.dumps(x).encode()).digest())
-        bs = max(1, min(6, len(frontier) // max(1, procs * 8)))
+        bs = max(1, min(3, len(frontier) // max(1, procs * 16)))
         items = [
             (space_mod, cfgs, i // bs, [
                 (pi, h, keep or d < parts[pi]['depth'])
@@ -162,7 +162,7 @@ def bfs_multi(space_mod: str, parts: list[dict], procs: int = 16,
         # copy) the parent's heap: park everything in the permanent generation
         gc.collect()
         gc.freeze()
-        eff = max(1, min(procs, len(frontier) // 3))
+        eff = max(1, min(procs, len(frontier) // 10))
         for r in pmap(_expand_batch, items, procs=eff, deadline=deadline,
                       initfn=gc.freeze):
             done_batches += 1
